@@ -11,6 +11,8 @@
 (* Programs are the JSON ASTs the harness prints GRL from:                 *)
 (*   expr  ::= [k:"c", t, v] | [k:"p", path] | [k:"bin", op, l, r]        *)
 (*           | [k:"not", e] | [k:"call", recv, fn, args]                  *)
+(*           | [k:"sel", base, i] | [k:"mem", base, m]   (of a call)      *)
+(*           | [k:"now"]                                                  *)
 (*   path  ::= << [n: name] | [x: expr, t: "i"|"s"] , ... >>              *)
 (*   action::= [k:"asg", path, form, e] | [k:"setter", fn, e]             *)
 (*           | [k:"retract", name] | [k:"complete"] | [k:"forget", name]  *)
@@ -47,7 +49,10 @@ CallFn(fn, recv, args, f) ==
     [] fn = "Sum"   -> Ok(args[1] + args[2])
     [] fn = "Heavy" -> Ok(args[1] * 2)
     [] fn = "HeavyB" -> Ok(args[1] > 1)
+    [] fn = "HeavyV" -> Ok(<<args[1] * 2, args[1] + 1>>)       \* a slice: rules read its elements
+    [] fn = "HeavyP" -> Ok([V |-> args[1] * 3])                \* a struct pointer: rules read its member V
     [] fn = "IsPos" -> Ok(args[1] > 0)
+    [] fn = "Fresh" -> Ok(args[1] = 1)                         \* is this instant one of the present call?
     [] fn = "Risky" -> IF args[1] = 13 THEN Err ELSE Ok(args[1])
     [] fn = "Len"   -> IF recv.ok THEN Ok(Len(recv.v)) ELSE Err
     [] OTHER        -> Err
@@ -92,11 +97,24 @@ BinOp(op, a, b) ==
 Eval(e, f) ==
   CASE e.k = "c"   -> Ok(e.v)
     [] e.k = "p"   -> Read(e.path, f)
+    \* Now(): the one expression that is not a function of the facts. The abstract clock counts calls backwards from the
+    \* present one: an instant read during the present call is 1, whatever was read during an earlier call is 2 (the harness
+    \* projects real instants the same way), so from-scratch evaluation - which is what every call owes - always yields 1.
+    [] e.k = "now" -> Ok(1)
     [] e.k = "not" -> LET v == Eval(e.e, f) IN IF v.ok THEN Ok(~v.v) ELSE Err
     [] e.k = "call" ->
          LET recv == IF e.fn = "Len" THEN Read(e.recv, f) ELSE Err
              args == EvalArgs(e.args, 1, <<>>, f)
          IN IF ~args.ok THEN Err ELSE CallFn(e.fn, recv, args.v, f)
+    \* an element / a member of what a call yields: F.HeavyV(x)[i], F.HeavyP(x).V (the call first, then the selector)
+    [] e.k = "sel" ->
+         LET b == Eval(e.base, f) IN
+         IF ~b.ok THEN Err
+         ELSE LET i == Eval(e.i, f) IN
+              IF ~i.ok THEN Err ELSE IF i.v + 1 \in DOMAIN b.v THEN Ok(b.v[i.v + 1]) ELSE Err
+    [] e.k = "mem" ->
+         LET b == Eval(e.base, f) IN
+         IF ~b.ok THEN Err ELSE IF e.m \in DOMAIN b.v THEN Ok(b.v[e.m]) ELSE Err
     [] e.k = "bin" ->
          IF e.op = "and" THEN
             LET a == Eval(e.l, f) IN
@@ -129,6 +147,7 @@ Step(a, s) ==
          LET v == Eval(a.e, s.f) IN
          IF ~v.ok THEN [s EXCEPT !.err = TRUE]
          ELSE IF a.fn = "Mark" THEN [s EXCEPT !.f["F.Once"] = s.f["F.Once"] * 10 + v.v]   \* records order and number of runs
+         ELSE IF a.fn = "Stamp" THEN [s EXCEPT !.f["F.St"] = s.f["F.St"] * 10 + v.v]      \* ... and the epoch of each instant
          ELSE [s EXCEPT !.f[SetterKey(a.fn)] = v.v]
     [] a.k = "repoint" ->   \* F.P = F.Spare: the paths below F.P now denote the spare object (V = 7, S = "sp" when first reached)
          IF s.f["F.P@"] = 1 THEN s
